@@ -1772,6 +1772,27 @@ func RunC17(col *core.Collector, tier, variant string, seed uint64, shard, nshar
 			col.Violation(core.Violation{Property: "C17", Signature: "cache:" + sigText(v), Detail: v, Replay: path})
 		}
 	}
+	bursts := 64
+	if tier == "thorough" {
+		bursts = 2000
+	}
+	if variant != "plain" {
+		bursts /= 2
+	}
+	for i := shard; i < bursts && col.NumViolations() < 5; i += nshards {
+		cs := core.Derive(seed, core.StrLabel("C17burst"), core.StrLabel(variant), uint64(i))
+		wd.Arm()
+		v, adds, bufs := runStripedBurst(cs, 400)
+		wd.Disarm()
+		col.Eval(1)
+		col.NonTrivial(cs)
+		col.Count("burst.new_buffers", bufs)
+		col.Count("burst.adds", adds)
+		if v != "" {
+			path := writeReplay(replayDir, fmt.Sprintf("C17-burst-%x.json", cs), map[string]any{"engine": "striped-burst", "case_seed": cs, "violation": v})
+			col.Violation(core.Violation{Property: "C17", Signature: "striped:" + sigText(v), Detail: v, Replay: path})
+		}
+	}
 	for i := shard; i < n; i += nshards {
 		r := core.NewRng(core.Derive(seed, core.StrLabel("C17"), core.StrLabel(variant), uint64(i)))
 		cfg := stripedCfg{Seed: r.U64(), Index: i,
